@@ -3,6 +3,7 @@ import asyncio
 from datetime import timedelta
 
 from .. import assert_repo
+from ..links import ANY_LINK
 
 ID = 'C20'
 LEVEL = 'exploration'
@@ -361,7 +362,7 @@ def gen_scenario(rng, single=False):
          'down_kind': rng.choice(['cold', 'hot', 'bp']), 'pacing': rng.choice([0.0, 0.001, 0.05]),
          'dispose_after': rng.choice([None, None, None, 0, 1, rng.randrange(0, n + 1)]),
          'up': None, 'up_error': None, 'up_kind': 'cold', 'up_limit': MAXN,
-         'link': rng.choice(['bytes', 'messages']), 'knobs': rng.random() < 0.5}
+         'link': rng.choice(ANY_LINK), 'knobs': rng.random() < 0.5}
     if d['pacing'] == 0.0:
         d['pacing'] = 0.0   # placeholder, hot sources get a non-zero pacing below
     if model == 'channel' and rng.random() < 0.8:
@@ -674,7 +675,7 @@ def run_refused(idx, rng):
     from .. import vloop
     from ..runner import short_hash
     from ..pair import trace_excerpt
-    d = {'version': rng.choice(['rx3', 'rx4']), 'link': rng.choice(['bytes', 'messages']),
+    d = {'version': rng.choice(['rx3', 'rx4']), 'link': rng.choice(ANY_LINK),
          'model': rng.choice(['stream', 'stream', 'rr']), 'gap': rng.choice([0.0, 0.01, 0.2]),
          'lease_after': rng.choice([1.0, 3.0])}
     logs, world = vloop.run(_refused(rng, d))
